@@ -7,6 +7,9 @@ THEOREMS = {
         "Dawgs.C02.Props.limit_pushdown_needs_guard", "Dawgs.C02.Props.prune_expr", "Dawgs.C02.Props.prune_preserves", "Dawgs.C02.Props.attach_preserves",
         "Dawgs.C02.Props.reorder_preserves", "Dawgs.C02.Props.reversal_preserves", "Dawgs.C02.Props.count_fast_path_tie",
         "Dawgs.C02.Props.count_fast_path_preserves", "Dawgs.C02.Props.count_fast_path_hyp_none", "Dawgs.C02.Props.count_fast_path_hyp_kinds",
+        "Dawgs.C02.Props.aggregate_helper_tie", "Dawgs.C02.Props.depth_guard_tie", "Dawgs.C02.Props.agg_count_depth_preserves",
+        "Dawgs.C02.Props.agg_count_depth_needs_guard", "Dawgs.C02.Props.alias_declaration_tie", "Dawgs.C02.Props.collect_id_lowering_blocked_by_reprojection",
+        "Dawgs.C02.Props.collect_id_by_symbol_differs",
     ],
 }
 
@@ -43,8 +46,8 @@ def _names(impl, field):
 
 
 # most specific lowering first: a difference is attributed to the first of these that fired for the query
-_PRIORITY = ["CountStoreFastPath", "AggregateTraversalCount", "CollectIDMembership", "ExactRangeExpansion", "ExpandIntoDetection", "ShortestPathStrategySelection",
-             "ShortestPathFilterMaterialization", "LimitPushdown", "ExpansionSuffixPushdown", "PathRelationshipPredicate", "TraversalDirectionSelection",
+_PRIORITY = ["CountStoreFastPath", "AggregateTraversalCount", "CollectIDMembership", "ExactRangeExpansion", "ExpansionSuffixPushdown", "LimitPushdown",
+             "ExpandIntoDetection", "ShortestPathStrategySelection", "ShortestPathFilterMaterialization", "PathRelationshipPredicate", "TraversalDirectionSelection",
              "PredicatePlacement", "LatePathMaterialization", "ProjectionPruning"]
 
 
@@ -89,12 +92,17 @@ def judge(op, impl, model):
         stage = w[1] if len(w) > 1 else "?"
         detail = " ".join(w[2:])[:1500].replace(" ", "_")
         if stage == "cypher-rewrite":
-            return "reject cypher-rewrite-changes-result:%s %s" % ("+".join(sorted(_names(impl, "rules"))) or "none", detail)
+            import cyshape
+            feats = cyshape.features(_query(op))
+            shape = ("pattern-predicate-of-one-match-reads-a-binding-of-another" if {"pattern-predicate", "match-after-earlier-clause"} <= feats
+                     else "unrecognised-query-shape")
+            return "reject cypher-rewrite-changes-result:%s:%s %s" % ("+".join(sorted(_names(impl, "rules"))) or "none", shape, detail)
         if stage.startswith("error-only"):
             m = re.search(r"(?:runtime|typing):(\S+) graph=", v)
             from props import c01 as _c01
             return "reject optimised-sql-differs:error-in-one-variant:%s %s" % (_c01._rt_class(m.group(1) if m else v), detail)
-        return "reject optimised-sql-differs:%s %s" % (classify(op, impl, v), detail)
+        wit = "on-loop-free-graph" if "witness=loop-free-graph" in v else "only-with-self-loops"
+        return "reject optimised-sql-differs:%s:%s:%s %s" % (classify(op, impl, v), stage, wit, detail)
     if "cfp-tie=differs" in v or (_query(op) == "match (n) return count(n)" and "cfp-tie=ok" not in v):
         return "reject tie:count-fast-path-statements-differ-from-the-model " + v[:300].replace(" ", "_")
     if w[0] == "bad-op":
@@ -171,12 +179,18 @@ SPEC = {
     "finding_key": finding_key,
     "extra_coverage": extra_coverage,
     "panic_is_violation": False,
-    "rule": "cases = one hand-written query per rewrite rule / lowering + every Cypher text of the repository corpora the translator accepts + structured random queries "
+    "rule": "cases = one hand-written query per rewrite rule / lowering + FOCUSED FAMILIES (harness/focused.go: variable-length step + fixed hops with every subset of the suffix nodes "
+            "already bound; aggregate-only RETURN incl. collect / size(collect()) with LIMIT and no ORDER BY; the aggregate-traversal-count shape with every range form incl. *0..; "
+            "collect(node) AS xs used under IN with every way of reading xs afterwards; bindings read by later clauses) + every Cypher text of the repository corpora the translator accepts + structured random queries "
             "(levels 1-5, splitmix64(VERIF_SEED)); each is translated twice by the REAL translator: `Translate` (optimised) and the verif-tagged hook `TranslateUnoptimized` "
             "(hooks/C02.patch: no rewrite rule, no lowering plan, no fast path), plus rules-only / lowerings-only variants to attribute a difference. Both statements are evaluated by "
             "Sql.eval on encode(g) for the fixed graph family, seeded random graphs and (fixed queries) all graphs up to 2 nodes / 2 edges, and compared as ordered lists under ORDER BY "
             "and as bags otherwise; a final LIMIT / SKIP without ORDER BY is compared by sub-multiset inclusion in the un-cut result with equal row count. `optimize.Optimize(q).Query` "
-            "is re-read and compared with q under Cy.eval on the same graphs. Same evaluation budget by pattern weight as C01. SEARCH, not proof. "
+            "is re-read and compared with q under Cy.eval on the same graphs. Same evaluation budget by pattern weight as C01 (the hand-made graph family is always used up to weight 6). "
+            "FINDING KEY = C02:optimised-sql-differs:<attribution>:<kind>:<witness>: attribution = `rule:<rules>` when the rules-only variant already differs, else `lowering:<first fired "
+            "lowering in the priority list of lib/props/c02.py>` (pattern predicates get their own class); kind = `rows` when the SETS of distinct rows differ, `multiplicity` when only "
+            "multiplicities do, `error-only-…`; witness = `on-loop-free-graph` if some differing graph has no self loop, else `only-with-self-loops` (the driver prefers a set difference "
+            "over a multiplicity difference and a loop-free graph as witness). A combination that is not registered is a VIOLATION. SEARCH, not proof. "
             "non-trivial = the optimiser changed the emitted SQL; distinct = distinct op lines",
     "expected_branches": ["translated", "optimised_sql_differs", "rule.InboundTraversalReversal", "rule.PredicateAttachment", "lowering.ProjectionPruning",
                           "lowering.LimitPushdown", "lowering.CountStoreFastPath", "lowering.LatePathMaterialization", "lowering.PredicatePlacement"],
@@ -198,7 +212,10 @@ MANIFEST = {
             "equals cutting the tail's output (any deterministic scan order), and limit_pushdown_needs_guard gives a counterexample for every dropped conjunct that matters (DISTINCT, ORDER BY, "
             "aggregation, SKIP, filter); limit_guard_tie / plan_guard_tie : the guard's conjuncts are exactly the early-return conditions of limitPushdownTailSource / "
             "queryPartAllowsLimitPushdown in the current sources (decide over the extracted table). prune_preserves — dropping columns the tail does not read does not change its output. "
-            "count_fast_path_preserves — under Sql.eval on every encoded graph, `select count(*) from node [where kind_ids @> …]` returns the same single row as the unoptimised two-frame "
+            "aggregate_helper_tie / depth_guard_tie / alias_declaration_tie: selectContainsAggregate (visitor over every node, never consumes), "
+            "aggregateTraversalDepthBounds (lower bound >= 1) and isProjectionAliasDeclaration (node identity) are the analysed functions (decide over their extracted statements), with "
+            "agg_count_depth_preserves (+ needs_guard witness for lower bound 0) and collect_id_lowering_blocked_by_reprojection (+ by-symbol counterexample) as the lemmas whose hypotheses "
+            "they are. count_fast_path_preserves — under Sql.eval on every encoded graph, `select count(*) from node [where kind_ids @> …]` returns the same single row as the unoptimised two-frame "
             "statement (tied to the real statement pair by count_fast_path_tie on the S-expressions of the corpus case). reversal_preserves — a chain pattern matches a walk iff the reversed pattern "
             "(elements reversed, directions flipped) matches the reversed walk, relationship uniqueness included. reorder_preserves — bag join of independent pattern parts is commutative up to "
             "permutation. attach_preserves — a conjunct that reads one side of a join may be evaluated before the join. NOT PROVED: C02_full (optimised ≈ unoptimised for the real translator, all "
